@@ -39,7 +39,7 @@ def run_property(prop_id, tier="quick", seed=0, only=None, jobs=None, keep_going
     out_lines = []
     verdict = {"violations": [], "undecided": [], "known": []}
     try:
-        ix = core.get_index(mod.tu_name, mod.tu_text)
+        ix = core.get_index(mod.tu_name, mod.tu_text, getattr(mod, "tu_filters", ("opentelemetry",)))
         extra_ix = {}
     except ExtractionError as e:
         print("UNDECIDED property=%s reason=extraction: %s" % (prop_id, str(e)[:500]))
